@@ -23,6 +23,28 @@ CACHE = os.path.join(VERIF, ".cache")
 COQ = os.path.join(VERIF, "coq")
 H_BIN = os.path.join(CACHE, "target", "release", "h")
 H_BIN_HOOK = os.path.join(CACHE, "target-hook", "release", "h")
+H_MIRI = os.path.join(VERIF, "bin", "h-miri")
+
+
+def hbin_for(hook):
+    """hook: False = plain harness, True = harness built with --cfg eyeball_verif, "miri" = under miri"""
+    if hook == "miri":
+        return H_MIRI
+    return H_BIN_HOOK if hook else H_BIN
+
+
+def miri_available():
+    try:
+        p = subprocess.run(["cargo", "+nightly", "miri", "--version"], stdout=subprocess.PIPE, stderr=subprocess.PIPE,
+                           text=True, timeout=60)
+        return p.returncode == 0
+    except Exception:
+        return False
+
+
+def miri_mark(lines):
+    """a run that miri aborted (undefined behaviour, leak report) is an oracle failure"""
+    return [a + " ok:miri=0" if a.startswith("RUNNER-CRASH") else a for a in lines]
 DRIVER = os.path.join(CACHE, "ocaml", "driver")
 NPROC = 16
 
@@ -277,7 +299,8 @@ def run_lines(binary, mode, lines, extra_args=()):
     """Run `binary mode` over the lines in up to NPROC shards; returns list of obs lines."""
     if not lines:
         return []
-    n = max(1, min(NPROC, len(lines) // 200 + 1))
+    per = 3 if binary == H_MIRI else 200
+    n = max(1, min(NPROC, len(lines) // per + 1))
     size = (len(lines) + n - 1) // n
     chunks = [lines[i:i + size] for i in range(0, len(lines), size)]
     with ThreadPoolExecutor(max_workers=NPROC) as ex:
@@ -333,7 +356,7 @@ def run_stream(name, mode, cases, nontrivial, hook=False, exhaustive=False, boun
     sr = StreamResult(name, mode)
     sr.exhaustive = exhaustive
     sr.bounds = bounds
-    hbin = H_BIN_HOOK if hook else H_BIN
+    hbin = hbin_for(hook)
     t0 = time.time()
     if mode in CHECKER_MODES:
         raw = run_lines(hbin, mode, cases)
@@ -354,6 +377,8 @@ def run_stream(name, mode, cases, nontrivial, hook=False, exhaustive=False, boun
             fm = ex.submit(run_lines, DRIVER, mode, cases)
             impl = fi.result()
             model = fm.result()
+    if hook == "miri":
+        impl = miri_mark(impl)
     sr.wall = time.time() - t0
     sr.n = len(cases)
     seen = set()
@@ -403,7 +428,9 @@ def run_one(mode, case, hook=False):
         b = run_lines(DRIVER, mode, [case])[0]
         a = run_lines(H_BIN_HOOK if hook else H_BIN, mode, [case + "\t" + b])[0]
         return a, b
-    a = run_lines(H_BIN_HOOK if hook else H_BIN, mode, [case])[0]
+    a = run_lines(hbin_for(hook), mode, [case])[0]
+    if hook == "miri":
+        a = miri_mark([a])[0]
     b = run_lines(DRIVER, mode, [case + "\t" + a if mode in FEED_IMPL_MODES else case])[0]
     return a, b
 
